@@ -334,6 +334,7 @@ func judgeRoute(prop string) func(w *world) {
 							want++
 						}
 						w.o.Stats["pairs_judged"]++
+						w.o.cover(f + " ~ " + p.topic)
 						if strings.ContainsAny(f, "+#") {
 							wild++
 						}
@@ -1054,4 +1055,178 @@ func init() {
 		Rule:   "a case = 2-3 nodes, a PRNG placement of 1-4 subscribers and one publisher, and for that placement every subset of remote nodes made unreachable in turn (fast failure, black hole or partition per node), 1-2 QoS 1 publishes per subset; appends per node, acknowledgement and copies per subscriber are judged against the publisher node's view; non-trivial when >=1 publish judged; distinct by hash of the scenario",
 		Real:   e1Real, Stub: e1Stub,
 		Assume: []string{"the publisher node's view is its subscription listing at the step that injects the publish", "placements and failure modes are sampled; the subsets of unreachable remote nodes are enumerated completely per placement"}})
+}
+
+// ---------------------------------------------------------------------------------------
+// C01, variant "live": publishes while subscription gossip is still in flight.
+// Without a settle in between, which remote subscriptions count is what the publishing node has
+// been told so far: node A forwards a publish to node N iff the LWW fold of the updates A has
+// been handed contains a live matching subscription hosted on N; N then serves its own local
+// sessions, whose filters it knows first-hand.
+
+func genC01Live(r *Rand, tier, profile string) *Case {
+	c := &Case{Profile: "route-live", Knobs: map[string]int64{}}
+	nodes := r.PickInt([]int{2, 2, 3})
+	c.Knobs["nodes"] = int64(nodes)
+	gossipKnobs(r, c)
+	nc := r.Range(2, 5)
+	var ts []tstep
+	t := int64(1)
+	for i := 0; i < nc; i++ {
+		ts = append(ts, tstep{t, Step{K: "connect", C: i, N: r.Intn(nodes), S: fmt.Sprintf("cl%d", i), U: "u", T: "p", I: 300}})
+		t += int64(r.Range(1, 30))
+	}
+	pid, tag := 1, 0
+	n := r.Range(4, 16)
+	if tier == "thorough" {
+		n = r.Range(4, 40)
+	}
+	filters := []string{"a/#", "a/+", "a/b", "#", "+/b", "b", "a", "+"}
+	topics := []string{"a/b", "a", "b", "a/c", "a/b/c"}
+	subbed := map[int][]string{}
+	for i := 0; i < n; i++ {
+		// gaps between 1 ms and 1.5 s: shorter, around and longer than gossip latency
+		t += int64(r.PickInt([]int{1, 5, 30, 150, 250, 450, 900, 1500}))
+		cl := r.Intn(nc)
+		switch x := r.Intn(10); {
+		case x < 4:
+			f := r.Pick(filters)
+			subbed[cl] = append(subbed[cl], f)
+			ts = append(ts, tstep{t, Step{K: "sub", C: cl, L: []string{f}, QL: []int{r.Intn(2)}, I: int64(pid)}})
+		case x < 5 && len(subbed[cl]) > 0:
+			ts = append(ts, tstep{t, Step{K: "unsub", C: cl, L: []string{subbed[cl][r.Intn(len(subbed[cl]))]}, I: int64(pid)}})
+		default:
+			tag++
+			ts = append(ts, tstep{t, Step{K: "pub", C: cl, T: r.Pick(topics), S: fmt.Sprintf("m%d", tag), Q: r.Intn(2), I: int64(pid)}})
+		}
+		pid++
+		if r.Bool(0.1) {
+			a := r.Intn(nodes)
+			b := (a + 1 + r.Intn(nodes-1)) % nodes
+			ts = append(ts, tstep{t + 1, Step{K: "pushpull", N: a, I: int64(b)}})
+		}
+	}
+	ts = append(ts, tstep{t + 500, Step{K: "sleep", I: 1500}})
+	c.Steps = mergeTimelines(ts)
+	return c
+}
+
+func judgeRouteLive(w *world) {
+	j := w.buildRouteModel()
+	endMs := w.nowMs()
+	ids := make([]int, 0, len(w.clients))
+	for id := range w.clients {
+		ids = append(ids, id)
+	}
+	sort.Ints(ids)
+	// times at which each client changed its own subscriptions
+	changes := map[int][]int64{}
+	for si, s := range w.c.Steps {
+		if s.K == "sub" || s.K == "unsub" {
+			changes[s.C] = append(changes[s.C], w.stepAt[si])
+		}
+	}
+	judged, remoteKnown, remoteUnknown := 0, 0, 0
+	for _, p := range j.pubs {
+		pcl := w.clients[p.client]
+		if pcl == nil {
+			continue
+		}
+		A := pcl.node
+		// what A had been told when it distributed the publish
+		best := map[string]kEntry{}
+		for _, r := range w.recv {
+			if r.Node != A || r.Src == "emit" || r.Ord > w.stepOrd[p.step] {
+				continue
+			}
+			for _, e := range r.Entries {
+				if strings.HasPrefix(e.Key, "U|") {
+					if cur, has := best[e.Key]; !has || cur.Stamp < e.Stamp {
+						best[e.Key] = e
+					}
+				}
+			}
+		}
+		knowsHost := map[int]bool{}
+		for key, e := range best {
+			if !e.Live {
+				continue
+			}
+			f := strings.SplitN(key, "|", 3)
+			pat := strings.TrimPrefix(f[1], p.mount+"/")
+			if pat == f[1] || !refMatch(pat, p.topic) {
+				continue
+			}
+			for _, n := range w.nodes {
+				if strings.HasPrefix(e.Val, fmt.Sprint(n.id)+"|") {
+					knowsHost[n.idx] = true
+				}
+			}
+		}
+		for _, id := range ids {
+			cl := w.clients[id]
+			if !w.clientAliveThrough(cl) || cl.mount != p.mount {
+				continue
+			}
+			stable := true
+			for _, at := range changes[id] {
+				if at > p.atMs-100 && at < p.atMs+700 {
+					stable = false
+				}
+			}
+			fs := j.active[p.step][id]
+			if !stable || fs == nil {
+				continue
+			}
+			matching := 0
+			for f := range fs {
+				if refMatch(f, p.topic) {
+					matching++
+				}
+			}
+			want := matching
+			if cl.node != A {
+				if knowsHost[cl.node] {
+					remoteKnown++
+				} else {
+					want = 0
+					if matching > 0 {
+						remoteUnknown++
+					}
+				}
+			}
+			got := 0
+			for _, ex := range cl.exch {
+				if ex.tag == p.tag {
+					got++
+				}
+			}
+			judged++
+			if got == want {
+				continue
+			}
+			kind := "missing-delivery"
+			if got > want {
+				kind = "extra-delivery"
+			}
+			w.o.violate("C01", kind, p.step, endMs, map[string]string{"class": "live-" + classifyMatch(sortedFilters(fs), p.topic), "remote": fmt.Sprint(cl.node != A)},
+				"publish %s on %q from node %d while subscription gossip was in flight: client %d on node %d (filters %q) received %d copies; node %d had been told of a matching subscription hosted on node %d: %v, so the reference says %d",
+				p.tag, p.topic, A, id, cl.node, sortedFilters(fs), got, A, cl.node, knowsHost[cl.node], want)
+		}
+	}
+	w.o.Stats["deliveries_judged"] += int64(judged)
+	w.o.Stats["remote_deliveries_publisher_knew"] += int64(remoteKnown)
+	w.o.Stats["remote_matches_publisher_had_not_been_told"] += int64(remoteUnknown)
+	w.o.Nontrivial = judged > 0
+}
+
+func runC01Live(t *testing.T, c *Case) *Outcome {
+	return runE1(t, c, profileHooks{judge: judgeRouteLive})
+}
+
+func init() {
+	register(&Check{ID: "C01", Variant: "live", Level: "exploration", Build: "maporder", Gen: genC01Live, Run: runC01Live, QuickS: 15, ThoroughS: 300,
+		Rule:   "variant 'live': 2-3 nodes, subscribe/unsubscribe/publish interleaved at gaps from 1 ms to 1.5 s with gossip loss/duplication/delay and occasional push-pull, no settle; a publish must reach a remote matching session iff the LWW fold of the subscription updates the publishing node had been handed by then contains a live matching subscription hosted on that session's node; sessions whose own filters changed within [-0.1 s, +0.7 s] of the publish are not judged",
+		Real:   e1Real, Stub: e1Stub,
+		Assume: []string{"what a node 'has learned' is reconstructed from the gossip and push-pull payloads the simulator actually delivered to it (decoded with the protobuf codec, not read from the node's state)"}})
 }
